@@ -36,16 +36,25 @@ def _run_one(args):
                         for f in p.after(r, i, cmd, ans) or []:
                             fails.append({'probe': p.name, 'at': i, **f})
                 except RecursionError:
-                    out.append('undef')
+                    # raised by the command itself, or by a probe looking at the state after it (then the command's own answer
+                    # is already recorded: appending a second entry for the same command would misalign `out` and `prog`)
+                    if len(out) <= i:
+                        out.append('undef')
                     fails.append({'probe': 'undef', 'at': i, 'what': 'listing or time query recurses without bound'})
                     break
                 except progs.NonDyadic as e:
+                    if len(out) > i:
+                        out.pop()
                     out.append(f'EXC:NonDyadic:{e}')
                     break
                 except AssertionError as e:
+                    if len(out) > i:
+                        out.pop()
                     out.append(f'EXC:Assert:{e}')
                     break
                 except Exception as e:  # noqa
+                    if len(out) > i:
+                        out.pop()
                     out.append(f'EXC:{type(e).__name__}:{str(e)[:120]}')
                     break
     finally:
@@ -102,7 +111,7 @@ def compare(prog, impl_out, model_out):
         if io == 'undef':
             # the implementation recursed without bound at command i; the model must be undefined at
             # its next observation (times are only evaluated there)
-            later = [model_out[j] for j in range(i, len(model_out)) if prog[j][0] in ('list', 'dur')]
+            later = [model_out[j] for j in range(i, min(len(model_out), len(prog))) if prog[j][0] in ('list', 'dur')]
             if prog[i][0] in ('list', 'dur'):
                 return None if mo == 'undef' else (i, io, mo)
             return None if (not later or 'undef' in later) else (i, io, later[0])
